@@ -61,12 +61,12 @@ KANI_URL_LOCALE = {
     "harness_files": ["kani-crates/c14/src/lib.rs"],
     "features": [],
     "flags": [],
-    "quick": ["%s::%s" % (m, h) for m in _C14_LENS[:6] for h in ("precondition_satisfiable", "root", "base")],
+    "quick": ["%s::%s" % (m, h) for m in _C14_LENS[:5] for h in ("precondition_satisfiable", "root", "base")],
     "thorough": ["%s::%s" % (m, h) for m in _C14_LENS for h in ("precondition_satisfiable", "root", "base")],
     "timeout": 1800,
     "procs": 6,
     "target_tag": "c14",
-    "bounded": "paths of at most 5 (quick) / 7 (thorough) characters after the base path, over the characters of the "
+    "bounded": "paths of at most 4 (quick) / 7 (thorough) characters after the base path, over the characters of the "
                "locale names, `/` and one other letter; locales en, en-US, fr in both listing orders; base paths "
                "\"\" and /a",
     "source_hint": "leptos_i18n_router/src/routing.rs",
